@@ -74,8 +74,12 @@ def abstract_name(fname):
         return None
     for c, hx in CFG["hashes"].items():
         suf = f".conflict-{hx[:12]}"
+        # (the base may itself be a conflict-copy's name that a client addressed as a path)
         if fname.endswith(suf):
-            return fname[:-len(suf)] + "#" + c
+            return abstract_name(fname[:-len(suf)]) + "#" + c
+        # the name a conflict-copy takes when its usual name already holds other content
+        if fname.endswith(suf + "-1"):
+            return abstract_name(fname[:-len(suf) - 2]) + "#" + c + "~1"
     return fname
 
 
@@ -103,7 +107,11 @@ def execute(job):
         for rq in program.get(sid, []):
             k = rq[0]
             wire = None
-            if len(rq) > 1 and isinstance(rq[1], str) and not rq[1].startswith(".copia"):
+            if len(rq) > 1 and isinstance(rq[1], str) and "#" in rq[1]:
+                # a client addressing, as an ordinary path, the very name a conflict-copy of <content> on <path> would take
+                base, c = rq[1].split("#")
+                wire = base + ".conflict-" + CFG["hashes"][c][:12]
+            elif len(rq) > 1 and isinstance(rq[1], str) and not rq[1].startswith(".copia"):
                 # another accepted spelling of the same file ("./f", "d//k", "d/./k"): the model knows it by its normal form
                 import posixpath
                 norm = posixpath.normpath(rq[1])
